@@ -969,4 +969,42 @@ Section Proofs.
       + eapply (new_cert_fresh_id s n c W); auto using InSt_cache. rewrite K; reflexivity.
     - intros m Hm. apply In_resolve; split; auto. apply has_name_In; auto.
   Qed.
+
+  (** * The boolean well-formedness check implies [WF] *)
+  Lemma filter_le1_by_member {A} (f : name -> A -> bool) (key : A -> name) (l : list A) :
+    (forall n x, f n x = true -> key x = n) ->
+    (forall x, In x l -> length (filter (f (key x)) l) <= 1) ->
+    forall n, length (filter (f n) l) <= 1.
+  Proof.
+    intros K H n. destruct (filter (f n) l) as [|x r] eqn:E; [cbn; lia|].
+    assert (Hx : In x (filter (f n) l)) by (rewrite E; cbn; auto).
+    apply filter_In in Hx as [Hx Fx]. pose proof (H x Hx) as L.
+    rewrite (K n x Fx), E in L. exact L.
+  Qed.
+
+  Lemma wf_b_sound k s : wf_b od k s = true -> WF s.
+  Proof.
+    unfold wf_b. rewrite !andb_true_iff.
+    intros ((((((((A1 & A2) & A3) & A4) & A5) & A6) & _) & _) & _).
+    rewrite forallb_forall in A1, A2, A3, A4, A5, A6.
+    constructor.
+    - intros c H. apply Nat.ltb_lt. apply A1; exact H.
+    - intros c1 c2 H1 H2 E. specialize (A2 c1 H1). rewrite forallb_forall in A2.
+      specialize (A2 c2 H2). apply orb_true_iff in A2 as [A2|A2].
+      + apply negb_true_iff, Nat.eqb_neq in A2; contradiction.
+      + apply cert_eqb_eq; exact A2.
+    - intros n c H. specialize (A3 _ H). cbn in A3. apply andb_true_iff in A3 as [X Y].
+      apply Nat.eqb_eq in X; auto.
+    - intros q c Hq Hc. specialize (A4 q Hq). apply andb_true_iff in A4 as [X _].
+      rewrite forallb_forall in X; auto.
+    - intros q c Hq Hc. specialize (A4 q Hq). apply andb_true_iff in A4 as [_ Y].
+      rewrite forallb_forall in Y; auto.
+    - exact A5.
+    - apply (filter_le1_by_member is_renew_for jname).
+      + intros n x. unfold is_renew_for. destruct (jkd x); [discriminate|]. apply Nat.eqb_eq.
+      + intros x Hx. specialize (A6 x Hx). apply andb_true_iff in A6 as [X _]. apply Nat.leb_le; auto.
+    - apply (filter_le1_by_member is_locked_for jname).
+      + intros n x. unfold is_locked_for. rewrite andb_true_iff, Nat.eqb_eq; tauto.
+      + intros x Hx. specialize (A6 x Hx). apply andb_true_iff in A6 as [_ Y]. apply Nat.leb_le; auto.
+  Qed.
 End Proofs.
